@@ -41,11 +41,10 @@ def varOk : Bytes → Bool
       | some (r, _) => letterR r
       | none => false
 
-/-- the key of `.key` / `?.key`: letters / digits / `_` not beginning with an ASCII digit — or EMPTY
-    (a dangling dot: `parse.Expr("$a.")` returns the access with the empty key, and prints `$a.`) -/
-def keyOk : Bytes → Bool
-  | [] => true
-  | c :: k => !isDig c && alnumBytes (c :: k)
+/-- the key of `.key` / `?.key`: a name like that of a variable — letters / digits / `_` beginning with
+    a letter (of any script) or `_`.  (Until /repo 8984077 the lexer also took the EMPTY key, `$a.`, and
+    keys beginning with a non-ASCII digit, `.٣`, for names.) -/
+def keyOk (k : Bytes) : Bool := varOk k
 
 /-- not a key of `parse.builtinIdents` -/
 def notKeyword (n : Bytes) : Bool := (Gen.builtinIdents.lookup n).isNone
@@ -143,12 +142,8 @@ theorem varOk_parts {k : Bytes} (h : varOk k = true) :
     exact h2
 
 theorem keyOk_parts {k : Bytes} (h : keyOk k = true) :
-    k = [] ∨ ∃ c r, k = c :: r ∧ isDig c = false ∧ alnumBytes (c :: r) = true := by
-  cases k with
-  | nil => exact Or.inl rfl
-  | cons c r =>
-    simp only [keyOk, Bool.and_eq_true, Bool.not_eq_true'] at h
-    exact Or.inr ⟨c, r, rfl, h.1, h.2⟩
+    ∃ c r, k = c :: r ∧ alnumBytes (c :: r) = true ∧ ∀ x w, runeAt (c :: r) = some (x, w) → letterR x = true :=
+  varOk_parts h
 
 theorem idStart_idChar {c : UInt8} (h : isIdStart c = true) : isIdChar c = true := by simp [isIdChar, h]
 
